@@ -260,6 +260,8 @@ def check_history(ops, lines):
             return (i, "impl-accepted-invalid-op", "%s -> %s (%s)" % (o, res, type(ex).__name__))
     if len(lines) > len(ops):
         rl = lines[len(ops)]
+        if rl.startswith("panic") or rl.startswith("UAF"):
+            return (len(ops), "impl-panic-in-teardown", rl)
         if rl.startswith("reset") and rl.strip() != "reset | 0 0 0 0 0":
             return (len(ops), "leak-after-drop-all", rl)
     return None
